@@ -100,6 +100,7 @@ type world struct {
 	fnsSeen map[*ssa.Function]bool
 	natives map[string]bool
 	stubs   map[string]value
+	pools   map[*value][]value // sync.Pool contents (LIFO), keyed by the pool's address
 	counter int64 // monotone virtual clock / fresh ids
 }
 
@@ -586,7 +587,17 @@ func (w *world) skipLabel(label string) bool {
 	if p == "" || len(label) < 3 || label[0] != 'C' || label[1] < '0' || label[1] > '9' || label[2] < '0' || label[2] > '9' {
 		return false
 	}
-	return !strings.HasPrefix(label, p)
+	// a label may name several properties: "C03/C24 text"
+	ids := label
+	if i := strings.IndexByte(label, ' '); i >= 0 {
+		ids = label[:i]
+	}
+	for _, id := range strings.Split(ids, "/") {
+		if id == p {
+			return false
+		}
+	}
+	return true
 }
 
 func truncate(s string, n int) string {
